@@ -31,4 +31,7 @@ type SignatureProposalConfirmationErrorRequest struct {
 	ParticipantId int
 	Error         *FSMError
 	CreatedAt     time.Time
+	// BatchID names the signing batch a failure report answers. Reports of
+	// older versions do not carry it.
+	BatchID string `json:",omitempty"`
 }
